@@ -36,6 +36,11 @@ worker() {
     fi
     git -C $wt apply "/verif/$m" || { echo "MUTANT-DOES-NOT-APPLY $m"; continue; }
     GOVC_REPO=$wt GOVC_OUT=$root/out$w runcheck $p -timeout ${SELFTEST_TIMEOUT:-15} -no-evidence > $log 2>&1; rc=$?
+    case "$m" in selftest/refactorings/*) if [ $rc -ne 0 ]; then
+      # the corpus runs SELFTEST_JOBS checks at once, each racing three solvers per obligation: a must-pass entry that
+      # alarms is tried once more with the timeout of the registered quick tier before it counts as a false alarm
+      GOVC_REPO=$wt GOVC_OUT=$root/out$w runcheck $p -timeout 30 -no-evidence > $log 2>&1; rc=$?
+    fi;; esac
     git -C $wt checkout -q -- .
     n=$(grep -c '^VIOLATION' $log)
     first=$(grep -m1 'FAILED' $log | awk '{print $NF}')
